@@ -195,12 +195,32 @@ fn run28(ctx: &mut Ctx) {
             // host accesses through untracked contexts must not be recorded, and must not survive into the next step
             let host = rng.chance(1, 6);
             let seg = if rng.chance(1, 5) { 2 + rng.below(12) } else { 1 };
+            // a tenth of the calls are step_over / step_out (one run that may span a whole subroutine, trap or handler)
+            let over_out: Option<bool> = if seg == 1 && rng.chance(1, 10) { Some(rng.bool() || p.r.frame_no == 0) } else { None };
             let cls = p.r.class_at_pc();
             let pc0 = p.r.pc;
             trace.push(format!("x{pc0:04X} {cls}{}", if seg > 1 { format!(" run_with_limit({seg})") } else { String::new() })); if trace.len() > 24 { trace.remove(0); }
             let case = |trace: &Vec<String>| desc.clone().set("last_steps", Json::Arr(trace.iter().map(|t| Json::from(t.as_str())).collect())).set("step", s);
             let (got, exp, acc);
-            if seg == 1 {
+            if let Some(over) = over_out {
+                let mut shadow = p.r.clone();
+                let mut total = std::collections::BTreeMap::new();
+                let start = shadow.frame_no; let mut e = Outcome::Ok; let mut first = true; let mut guardc = 0;
+                shadow.mcr = true;
+                while shadow.mcr && guardc < 4000 {
+                    let cont = first || if over { start < shadow.frame_no } else { start <= shadow.frame_no };
+                    if !cont { break; }
+                    first = false; guardc += 1; shadow.acc.clear(); e = shadow.step(None); for (a, f) in &shadow.acc { *total.entry(*a).or_insert(0u8) |= *f; } if e != Outcome::Ok { break; }
+                }
+                if guardc >= 4000 { ctx.count("inconclusive.segment-bound"); return; }
+                let g = crate::monitor::guard(|| if over { p.sim.step_over() } else { p.sim.step_out() });
+                let Ok(g) = g else { return };
+                p.r = shadow; p.r.mcr = false;
+                got = g; exp = e; acc = total;
+                ctx.evals(guardc);
+                ctx.count(if over { "segments.step_over" } else { "segments.step_out" });
+                if guardc > 1 { ctx.count("segments.step_over-or-out.spanning-several-instructions"); }
+            } else if seg == 1 {
                 let pend = if rng.chance(1, 30) { Some((0x50, 1 + rng.below(7) as u8)) } else { None };
                 let Ok((g, e)) = crate::monitor::guard(|| p.step(pend)) else { return };
                 got = g; exp = e; acc = p.r.acc.clone();
@@ -224,7 +244,7 @@ fn run28(ctx: &mut Ctx) {
             }
             // compare observer BEFORE Pair::compare consumes it
             let obs = snapshot(&mut p);
-            if let Some((c, d)) = cmp_sets(&obs, &acc) { ctx.violation(&format!("observer:{c}:{}", if seg > 1 { "run" } else { cls }), format!("after {} at x{pc0:04X} ({cls}): {d}", if seg > 1 { "run_with_limit" } else { "step_in" }), case(&trace)); return; }
+            if let Some((c, d)) = cmp_sets(&obs, &acc) { ctx.violation(&format!("observer:{c}:{}", if seg > 1 { "run" } else if over_out.is_some() { "step_over/out" } else { cls }), format!("after {} at x{pc0:04X} ({cls}): {d}", if seg > 1 { "run_with_limit" } else if over_out.is_some() { "step_over/step_out" } else { "step_in" }), case(&trace)); return; }
             let n_data = acc.iter().filter(|(a, _)| **a != pc0).count();
             if n_data > 0 { ctx.nontrivial(ctx.case_seed(0, idx) ^ s as u64); ctx.count("steps.with-data-access"); }
             if acc.values().any(|f| f & MODIFIED != 0) { ctx.count("steps.modifying"); }
@@ -252,6 +272,6 @@ fn run28(ctx: &mut Ctx) {
 }
 fn guard28(m: &Merged, _t: Tier) -> Vec<String> {
     let mut out = vec![];
-    for k in ["steps.with-data-access", "steps.modifying", "steps.write-same-value", "steps.entry", "steps.rti", "steps.indirect", "segments.run_with_limit", "host-accesses.untracked"] { need(m, &mut out, k, 20); }
+    for k in ["steps.with-data-access", "steps.modifying", "steps.write-same-value", "steps.entry", "steps.rti", "steps.indirect", "segments.run_with_limit", "segments.step_over", "segments.step_out", "segments.step_over-or-out.spanning-several-instructions", "host-accesses.untracked"] { need(m, &mut out, k, 20); }
     out
 }
